@@ -553,7 +553,7 @@ pub fn gen_file(t: &mut Tape) -> GenFile {
         };
         let signed = matches!(ty, UserPrmDataType::Signed8 | UserPrmDataType::Signed16 | UserPrmDataType::Signed32);
         let val = |t: &mut Tape| -> i64 {
-            let v = *t.pick(&[0i64, 1, 2, 3, 7, 100, 127, 255, 1000, 32767, 65535, 2_000_000_000]);
+            let v = *t.pick(&[0i64, 1, 2, 3, 7, 100, 127, 255, 1000, 32767, 65535, 2_000_000_000, 2_147_483_647, 2_147_483_648, 4_294_967_295]);
             if signed && t.bool() {
                 -v
             } else {
